@@ -31,6 +31,8 @@ pub enum PEv {
     HoldAfter(u32, u32),
     /// (auto-retry scenarios) wait until the tower is reachable with nothing pending, at most that many seconds
     AwaitDelivered(u32, u32),
+    /// (auto-retry scenarios) wait until the tower is shown with that status, at most that many seconds
+    AwaitStatus(u32, &'static str, u32),
     /// (chaos scenarios) wait that many milliseconds, then SIGKILL the client and start it again at once
     KillAfter(u32),
     /// (chaos scenarios) just wait
@@ -77,6 +79,7 @@ impl PEv {
             PEv::Release(t, m) => format!("pl release {t} {}", add_tok(m)),
             PEv::HoldAfter(t, l) => format!("pl holdafter {t} {l}"),
             PEv::AwaitDelivered(t, s) => format!("pl await {t} {s}"),
+            PEv::AwaitStatus(t, st, s) => format!("pl awaitstatus {t} {st} {s}"),
             PEv::KillAfter(ms) => format!("pl killafter {ms}"),
             PEv::Pause(ms) => format!("pl pause {ms}"),
         }
@@ -213,6 +216,12 @@ fn monitors(w: &mut PWorld, g: &mut Ghost, ev: &PEv, reply: &str, view: &View, t
         let db_pending: BTreeSet<u32> = view.rows.pend.iter().filter(|r| r.0 == *t).map(|r| r.1).collect();
         if db_pending != tv.pending {
             out.push(Rec::Fail("C13", "pending_listing_differs_from_store".into(), format!("tower {t}: listtowers pending {:?}, stored {:?}", tv.pending, db_pending)));
+        }
+        // C05: the summary the handler consults ("has this tower already answered for this appointment?") is what
+        // the file says: otherwise a repeated notification records the appointment a second time, or loses it
+        let db_invalid: BTreeSet<u32> = view.rows.inval.iter().filter(|r| r.0 == *t).map(|r| r.1).collect();
+        if tv.status != "m" && (db_pending != tv.pending || db_invalid != tv.invalid) {
+            out.push(Rec::Fail("C05", "summary_differs_from_store".into(), format!("tower {t}: in memory pending {:?} invalid {:?}, in the file pending {:?} invalid {:?}", tv.pending, tv.invalid, db_pending, db_invalid)));
         }
         if tv.status == "tu" && tv.pending.is_empty() {
             // flagged by a failed registertower / getappointment: nothing is pending, the next revocation starts a
@@ -388,6 +397,20 @@ pub fn run_scenario(sc: &Scenario, idx: usize) -> Vec<Rec> {
                 std::thread::sleep(Duration::from_millis(*ms as u64));
                 "ok".into()
             }
+            PEv::AwaitStatus(t, st, secs) => {
+                let t0 = Instant::now();
+                let mut ok = false;
+                while t0.elapsed() < Duration::from_secs(*secs as u64) {
+                    if let Ok(v) = w.view() {
+                        if v.towers.get(t).map_or(false, |tv| tv.status == *st) {
+                            ok = true;
+                            break;
+                        }
+                    }
+                    std::thread::sleep(Duration::from_millis(100));
+                }
+                if ok { "reached".into() } else { "not-reached".into() }
+            }
             PEv::AwaitDelivered(t, secs) => {
                 let t0 = Instant::now();
                 let mut ok = false;
@@ -408,7 +431,7 @@ pub fn run_scenario(sc: &Scenario, idx: usize) -> Vec<Rec> {
         };
         let view = match ev {
             PEv::Add(..) | PEv::AddOnce(..) | PEv::Reg(..) | PEv::Down(..) => Some(prev.clone()),
-            PEv::AwaitDelivered(..) => w.view().ok(),
+            PEv::AwaitDelivered(..) | PEv::AwaitStatus(..) => w.view().ok(),
             _ if timed => {
                 std::thread::sleep(Duration::from_millis(1200));
                 w.view().ok()
@@ -431,7 +454,7 @@ pub fn run_scenario(sc: &Scenario, idx: usize) -> Vec<Rec> {
                 g.due.retain(|d| d.0 != *t);
             }
         }
-        let line = if matches!(ev, PEv::AwaitDelivered(..)) { reply.clone() } else { format!("{reply} {}", view.line()) };
+        let line = if matches!(ev, PEv::AwaitDelivered(..) | PEv::AwaitStatus(..)) { reply.clone() } else { format!("{reply} {}", view.line()) };
         // the event's line first, so that a failure's replay includes the event that exposed it
         let at = out.iter().rposition(|r| matches!(r, Rec::Line(..))).map_or(0, |p| p + 1);
         if timed {
@@ -637,6 +660,8 @@ pub fn corpus() -> Vec<Scenario> {
         sc("kill-with-pending", vec![Register(0), Register(1), Down(0, true), Notify(0), Notify(1), Restart, Down(0, false), Restart, Notify(2)]),
         sc("register-replies", vec![PEv::Reg(0, RegMode::BadSig), Register(0), PEv::Reg(0, RegMode::NonJson), Register(0), PEv::Reg(0, RegMode::ApiError), Register(0), PEv::Reg(0, RegMode::Accept), Register(0), PEv::Reg(0, RegMode::Same), Register(0), PEv::Reg(0, RegMode::SameExpiry), Register(0), Down(0, true), Register(0), Notify(0)]),
         Scenario { name: "auto-retry-delivers".into(), towers: 1, opts: (2, 3, 1), events: vec![Register(0), Down(0, true), Notify(0), Notify(1), Down(0, false), AwaitDelivered(0, 14)] },
+        // a revocation that arrives while the retrier idles is only in the file: the automatic wake-up must pick it up
+        Scenario { name: "revocation-while-the-retrier-idles".into(), towers: 1, opts: (2, 4, 1), events: vec![Register(0), Down(0, true), Notify(0), AwaitStatus(0, "u", 12), Notify(1), Notify(2), Down(0, false), AwaitDelivered(0, 20)] },
         Scenario { name: "auto-retry-after-subscription-error".into(), towers: 1, opts: (2, 3, 1), events: vec![Register(0), Add(0, SubErr), PEv::Reg(0, RegMode::NonJson), Notify(0), Add(0, Accept), PEv::Reg(0, RegMode::Accept), AwaitDelivered(0, 14)] },
     ]
 }
